@@ -7,6 +7,7 @@ instance, dict...) x failing distributions.
 import itertools
 
 import numpy as np
+import pandas as pd
 
 from mc import engine, uni
 from mc.ref import kde as refkde
@@ -171,7 +172,7 @@ def run_case(case):
 # ------------------------------------------------------------------------------------------------
 GM_FORMS = ['default', 'class', 'name', 'instance', 'fitted-instance', 'instance-positional', 'wrapper-positional',
             'dict-all', 'dict-subset', 'dict-mixed', 'boom-class', 'boom-name', 'boom-instance', 'boom-dict',
-            'dict-reused-after-fallback']
+            'dict-reused-after-fallback', 'wrapper-selection-sample']
 
 
 def _table(t):
@@ -224,6 +225,25 @@ def _gm(r, case):
                 r.violation(f'C05:gm:column-type:{form}', f'{tag} ({how}): column {c1!r} is modelled by {t1} on the table the '
                             f'configured distribution cannot fit (expected the Gaussian fallback) and by {t2} on the table it '
                             f'can fit (expected the configured distribution)', case=case)
+                break
+        r.hit(f'gm:{form}')
+        r['sample'] = {'form': form, 'table': t}
+        return r
+    if form == 'wrapper-selection-sample':
+        # a selecting wrapper that looks at a subsample, on a table whose row index is not 0..n-1
+        tdf = df.copy()
+        tdf.index = pd.Index(np.argsort((np.arange(len(tdf)) * 7919) % len(tdf), kind='stable') + 1000)
+        proto = U.Univariate(candidates=[U.GammaUnivariate, U.UniformUnivariate, U.BetaUnivariate], selection_sample_size=25)
+        for kw_ in ({}, {'random_state': 3}):
+            gmw = GaussianMultivariate(distribution=proto, **kw_)
+            r.tr()
+            r.ev()
+            gmw.fit(tdf.copy())
+            tps = [u.to_dict()['type'].rsplit('.', 1)[1] for u in gmw.univariates]
+            if not set(tps) <= {'GammaUnivariate', 'UniformUnivariate', 'BetaUnivariate'}:
+                r.violation(f'C05:gm:column-type:{form}', f'GaussianMultivariate(distribution=Univariate(candidates=[Gamma, Uniform, '
+                            f'Beta], selection_sample_size=25)) on a table with a non-default index models its columns by {tps}',
+                            case=case)
                 break
         r.hit(f'gm:{form}')
         r['sample'] = {'form': form, 'table': t}
